@@ -15,9 +15,17 @@ NA = {
  "C17": "equivalence of two configurations over all requests - pure; its isolation clause is exercised by the C05/C06 workloads",
 }
 
-PENDING = ["C06", "C13", "C18", "C19"]
+PENDING = ["C18", "C19"]
 
 CHECKS = {
+ "C06": dict(cat="exploration", design="DESIGN.md §4 C06",
+   technique="deterministic simulation: seeded cooperative scheduler over real goroutines with race-detector-invisible hand-over; race detector + per-transaction differential oracle",
+   text="2-8 simulated tasks (transactions on one shared WAF, WAF builders/closers sharing the process-wide pattern cache and transformation-id table, pool churners) are interleaved by a seeded scheduler (random walk, PCT, round-robin) with yield points at every sync/atomic operation, every statement of the shared-state packages and every rule evaluation. The Go race detector observes the real code under each chosen interleaving; additional oracles: no panic, no deadlock, pool exclusivity, each transaction's outcome equals its outcome alone. The thorough tier repeats the search on the multiphase-evaluation build.",
+   note="trusted: the scheduler's race-invisible hand-over (selftest proves races stay visible and mutex-protected code stays silent), simsync primitives; simulated disk operations add real happens-before edges (may hide, never invent, a race)"),
+ "C13": dict(cat="exploration", design="DESIGN.md §4 C13",
+   technique="deterministic simulation: build/close/probe histories over the process-wide cache, sequential and scheduler-interleaved under the race detector; differential against a no_memoize build of the same tree",
+   text="Histories of WAF constructions, closures and probe transactions drawn from ~500 configurations that put one string into different cache-using roles (phrase list, data set name with different contents, file name under different root file systems, regex keys, ctl regex keys, REST paths, NID patterns, relevant-status pattern, @rx with prefilter On/Off, and all pairs). Every build result and probe outcome is compared with a golden table produced by a second binary compiled from the same tree with the cache compiled out.",
+   note="trusted: the no_memoize build as reference; the configuration pool construction; error messages are not compared"),
  "C02": dict(cat="exploration", design="DESIGN.md §4 C02",
    technique="deterministic simulation: unreliable connector (dropped / duplicated / reordered API calls) against a reference phase machine",
    text="The connector is simulated as an unreliable caller: the canonical call list is delivered through a channel that drops, duplicates and reorders calls, bodies arrive in pieces, engine modes and ctl:ruleEngine switches are drawn. After every delivered call a reference phase machine written from the statement checks which rules may have fired, that no request/response phase ran twice or after an interruption, and that every call returns the first interruption (or none in DetectionOnly / Off). Histories are unbounded in shape, so seeded exploration with shrinking is the fitting level.",
